@@ -51,6 +51,11 @@ def configs(draw, exhaustive=False):
   return {
     'extras': extras, 'bounce': bounce,
     'bounce_old_ports': {str(i): draw(st.sampled_from([2004, 2104, 2304])) for i in bounce if draw(st.booleans())},
+    # destinations that REPLACED another one after traffic had been routed (one leaves, a different one joins, no
+    # look-up in between, same count): index -> the triple that was configured there before
+    'swapped_in': ({str(draw(st.integers(0, len(dests) - 1))): [draw(st.sampled_from(['old-1', 'old-2', '10.0.0.9'])), 2004,
+                                                                draw(st.sampled_from(['a', 'z', None]))]}
+                   if draw(st.integers(0, 2)) == 0 else {}),
     'dests': [list(d) for d in dests],
     'rf': draw(st.integers(1, 4)),
     'diverse': draw(st.booleans()),
@@ -121,14 +126,22 @@ def build_router(b, case):
   for d in extras[:1]:
     router.addDestination(d)
   old_ports0 = case.get('bounce_old_ports') or {}
+  swapped = dict((int(k), tuple(v)) for k, v in (case.get('swapped_in') or {}).items()
+                 if (v[0], v[2]) not in [(x[0], x[2]) for x in case['dests']] and int(k) not in case.get('bounce', []))
   for i, d in enumerate(case['dests']):
+    if i in swapped:
+      router.addDestination(swapped[i])          # the destination that will be replaced by d later
+      continue
     router.addDestination((d[0], old_ports0.get(str(i), d[1]) if i in case.get('bounce', []) else d[1], d[2]))
   for d in extras[1:]:
     router.addDestination(d)
-  if extras or case.get('bounce'):
+  if extras or case.get('bounce') or swapped:
     # traffic before the membership changes (whatever the router memoises per node is filled by now)
     for key in ('a.b', 'servers.web01.cpu', 'x', 'carbon.agents.h.metricsReceived', 'm.1', 'm.2', 'm.3', 'm.4'):
       list(router.getDestinations(key))
+  for i, old in swapped.items():
+    router.removeDestination(old)
+    router.addDestination(tuple(case['dests'][i]))
   for d in extras:
     router.removeDestination(d)
   old_ports = case.get('bounce_old_ports') or {}
@@ -236,8 +249,10 @@ def execute(ctx, case):
     classes.append('rf > servers')
   if case.get('collision'):
     classes.append('two nodes with colliding node hashes')
-  if case.get('extras') or case.get('bounce'):
+  if case.get('extras') or case.get('bounce') or case.get('swapped_in'):
     classes.append('membership changed before the look-ups')
+  if case.get('swapped_in'):
+    classes.append('one destination replaced by another (same count, no look-up in between)')
   if any(e[0] in per_server for e in case.get('extras', [])):
     classes.append('an instance left a server that stays configured')
   ctx.note(dict(case, names=case['names'][:3]), nontrivial=nt, classes=classes,
